@@ -105,8 +105,13 @@ def check_meiosis(prog, rep, f, prop="C01"):
         U("R2-tiling", "gamete array is not a single numpy.empty/zeros allocation")
         return False
     shape = _resolve(galloc[0].args[0] if galloc[0].args else kwargs_of(galloc[0])[0].get("shape"), defs)
+    if isinstance(shape, ast.Tuple) and len(shape.elts) == 2:
+        # extents may be named locals (nsel = len(sel)): follow them
+        shape = ast.Tuple(elts=[_resolve(x, defs) for x in shape.elts], ctx=ast.Load())
     if not (isinstance(shape, ast.Tuple) and len(shape.elts) == 2 and _is_len_of(shape.elts[0], sel) and _is_len_of(shape.elts[1], xoprob)):
-        if isinstance(shape, ast.Tuple) and len(shape.elts) == 2:
+        known = isinstance(shape, ast.Tuple) and len(shape.elts) == 2 and all(
+            _is_len_of(x, sel) or _is_len_of(x, xoprob) or _is_len_of(x, geno) or (isinstance(x, ast.Subscript) and "shape" in dump(x)) or isinstance(x, ast.Constant) for x in shape.elts)
+        if known:
             V("R6-alignment", "gamete array has shape (%s), not (len(sel), len(xoprob)): one gamete per selected parent, one column per marker"
               % dump(shape), galloc[0], "(len(sel), len(xoprob))", dump(shape))
         else:
@@ -145,6 +150,8 @@ def check_meiosis(prog, rep, f, prop="C01"):
     else:
         sz = dargs[0] if dargs else kws.get("size")
     szr = _resolve(sz, defs) if sz is not None else None
+    if isinstance(szr, ast.Tuple):
+        szr = ast.Tuple(elts=[_resolve(x, defs) for x in szr.elts], ctx=ast.Load())
     if not (isinstance(szr, ast.Tuple) and len(szr.elts) == 2 and _is_len_of(szr.elts[0], sel) and _is_len_of(szr.elts[1], xoprob)):
         V("C02-R1-uniforms", "uniform sample has shape %s: one independent number per (gamete, marker) needs (len(sel), len(xoprob))"
           % (dump(szr) if szr is not None else "<scalar>"), dcall, "(len(sel), len(xoprob))", dump(szr) if szr is not None else "none")
